@@ -94,7 +94,7 @@ func handleNum(raw json.RawMessage) interface{} {
 			}
 			// the identifier denotes that number EVERY time it is evaluated: the same occurrence in a loop, as the receiver of the
 			// in-place number methods, as an argument of a method that changes its input, in between plain uses
-			if c.Eval && !math.IsInf(want, 0) && true {
+			if c.Eval && !math.IsInf(want, 0) && want != 0 { // (the sign of a zero is not compared, as above)
 				src := "如何改？\n    输入数\n    以数（自增：1）\n    输出数\n\n令果 = 【】\n令次 = 0\n每当次 < 3：\n    次 = 次 + 1\n    以果（后增：以 " + string(lit) + " （自增：1））\n    以果（后增：（改： " + string(lit) + " ））\n    以果（后增： " + string(lit) + " ）\n输出果\n"
 				o := zn.RunScript(src, nil)
 				okAll := o.Obs == "value"
